@@ -31,6 +31,7 @@ type Knobs struct {
 	EpollCreateFail bool
 	// dedicated configurations
 	EpollCtlAddFail int
+	EpollCtlAddSkip int // that many EPOLL_CTL_ADD calls pass before EpollCtlAddFail applies
 	SetsockoptFail  int
 	EventfdFail     int
 	// open a harness-owned trip-wire on the number netpoll just closed
@@ -59,6 +60,8 @@ type FDInfo struct {
 	Read     int64 // bytes the kernel delivered from this descriptor
 	EpollIn  int   // epoll descriptor this one is registered in (0 = none)
 	Tripwire bool
+	EpollKey [8]byte // the user data of its registration (what epoll_wait hands back)
+	Fetched  int     // events for this descriptor that epoll_wait has handed to netpoll so far
 }
 
 type Event struct {
@@ -98,6 +101,9 @@ func Reset() {
 	}
 	Events = Events[:0]
 	BadCloses = nil
+	for k := range epollKeys {
+		delete(epollKeys, k)
+	}
 	tripwires = tripwires[:0]
 	NetpollOpen = 0
 	K = Knobs{}
@@ -698,6 +704,9 @@ func sendv(fd int, trap, a1 uintptr, iov *syscall.Iovec, cnt, total int, mh *sys
 	return r, e
 }
 
+// epollKeys maps the user data of a registration to the descriptor it was made for.
+var epollKeys = map[[8]byte]int{}
+
 type epollEvent struct {
 	events uint32
 	data   [8]byte
@@ -717,7 +726,9 @@ func RawSyscall6(trap, a1, a2, a3, a4, a5, a6 uintptr) (uintptr, uintptr, syscal
 	case syscall.SYS_EPOLL_CTL:
 		simrt.Yield("sys.epoll_ctl", 1)
 		epfd, op, fd := int(a1), int(a2), int(a3)
-		if op == syscall.EPOLL_CTL_ADD && simrt.FaultChance(K.EpollCtlAddFail) {
+		if op == syscall.EPOLL_CTL_ADD && K.EpollCtlAddFail > 0 && K.EpollCtlAddSkip > 0 {
+			K.EpollCtlAddSkip--
+		} else if op == syscall.EPOLL_CTL_ADD && simrt.FaultChance(K.EpollCtlAddFail) {
 			simrt.CountFault("epoll_ctl_add_fail")
 			ev("epoll_ctl", fd, op, syscall.ENOSPC, epfd)
 			return errRet, 0, syscall.ENOSPC
@@ -743,6 +754,10 @@ func RawSyscall6(trap, a1, a2, a3, a4, a5, a6 uintptr) (uintptr, uintptr, syscal
 				FDs[fd].EpollIn = epfd
 			case syscall.EPOLL_CTL_DEL:
 				FDs[fd].EpollIn = 0
+			}
+			if op != syscall.EPOLL_CTL_DEL && a4 != 0 {
+				FDs[fd].EpollKey = (*epollEvent)(unsafe.Pointer(a4)).data
+				epollKeys[FDs[fd].EpollKey] = fd
 			}
 		}
 		var evts int
@@ -773,8 +788,26 @@ func epollWait(a1, a2, a3 uintptr) (uintptr, uintptr, syscall.Errno) {
 	if e == 0 && max < int(a3) && int(r) == max {
 		simrt.CountFault("epoll_clip")
 	}
+	if e == 0 && int(r) > 0 {
+		// which descriptors this batch is about (harness tasks may wait for "an event of fd has been
+		// fetched": the moment from which a close of fd races with the dispatch of that event)
+		evs := unsafe.Slice((*epollEvent)(unsafe.Pointer(a2)), int(r))
+		for i := range evs {
+			if fd, ok := epollKeys[evs[i].data]; ok && FDs[fd].Open && FDs[fd].EpollIn == int(a1) && FDs[fd].EpollKey == evs[i].data {
+				FDs[fd].Fetched++
+			}
+		}
+	}
 	ev("epoll_wait", int(a1), int(r), e, max)
 	return r, r2, e
+}
+
+// Fetched reports how many events of fd epoll_wait has handed out during its current registration.
+func Fetched(fd int) int {
+	if fd < 0 || fd >= MaxFD {
+		return 0
+	}
+	return FDs[fd].Fetched
 }
 
 // The uintptr arguments are pointers converted at the call site (netpoll passes the address of
